@@ -7,9 +7,11 @@ from contracts.c05_evaluate import CX, Any
 ArgMeta = Rec("ArgMeta", dict(name=Str, multiple=Bool, default=Any, optional=Bool, type=Opt(Str)), required=["name"])
 classdef("ArgMetaDict", fields=dict(d=ArgMeta), record="d")        # one entry of CommandMetadata.arguments (a dictionary)
 AM = Ref("ArgMetaDict")
-classdef("CommandMetadataX", fields=dict(arguments=Seq(AM), name=Str))
+StateArg = Rec("StateArg", dict(pass_state=Bool, name=Str), required=["pass_state"])
+classdef("CommandMetadataX", fields=dict(arguments=Seq(AM), name=Str, state_argument=StateArg))
 classdef("ArgParserX", abstract=True, fields={})
-classdef("liquer.commands.CommandExecutable", fields=dict(metadata=Ref("CommandMetadataX"), argument_parser=Ref("ArgParserX")))
+classdef("PyFunction", abstract=True, fields={})        # the registered Python function: arbitrary code
+classdef("liquer.commands.CommandExecutable", fields=dict(f=Ref("PyFunction"), metadata=Ref("CommandMetadataX"), argument_parser=Ref("ArgParserX")))
 
 
 @interface("ArgParserX.parse_meta", params=dict(self=Ref("ArgParserX"), metadata=Seq(AM), args=Seq(Any), context=Opt(CX)),
